@@ -180,6 +180,19 @@ def build(rnd, profile, n_trees, sels_per_tree, feats=None, depth=2, ast=True, l
                 ts = [str(t_).strip() for t_ in fr.descendants if isinstance(t_, _bs4.NavigableString) and type(t_) is _bs4.NavigableString and str(t_).strip()]
                 if ts:
                     inner_texts.append(rnd.choice(ts)[:12])
+            # both text pseudo-classes in one compound, in either order: each looks at its own text sequence
+            tx_ = [t_ for t_ in (pools.get('texts') or []) if t_ and t_.strip()]
+            for _k in range(2):
+                if not tx_:
+                    break
+                t1, t2 = rnd.choice(tx_)[:10], rnd.choice(tx_)[:10]
+                first_own = rnd.random() < 0.5
+                a = [[{'ids': [], 'classes': [], 'attrs': [], 'pseudos': [('contains', first_own, [t1]), ('contains', not first_own, [rnd.choice([t1, t2])])]}]]
+                s = gen_selectors.show_list(a)
+                if s not in sc.meta:
+                    ops = [('select', (), 0)] + [('match', sc.path_of[id(e)]) for e in sc.elements] if all_match else std_ops(rnd, sc, light)
+                    sc.add(s, ops, namespaces=nsmap)
+                    sc.meta[s] = a
             # the empty search string is contained in every text, the empty text included
             for own, vals in ((False, ['']), (True, ['']), (False, ['zzz-nowhere', ''])):
                 a = [[{'ids': [], 'classes': [], 'attrs': [], 'pseudos': [('contains', own, vals)]}]]
